@@ -1078,6 +1078,19 @@ fn vector_laws(cx: &mut Ctx, n: usize) -> Vec<(String, Vec<Arg>)> {
         }
         v.push(("Empirical".to_string(), vec![Arg::FL(data)]));
     }
+    // mass at large indices with a small spread (mean^2 / variance ~ 1e9): a variance computed as E[X^2] - E[X]^2 cancels
+    {
+        let mut far = vec![0.0; 50_000];
+        far[49_997] = 1.0;
+        far[49_998] = 3.0;
+        far[49_999] = 2.0;
+        v.push(("Categorical".to_string(), vec![Arg::FL(far)]));
+        let mut bump = vec![0.0; 40_000];
+        for (k, w) in [1.0, 4.0, 6.0, 4.0, 1.0].iter().enumerate() {
+            bump[31_000 + k] = *w;
+        }
+        v.push(("Categorical".to_string(), vec![Arg::FL(bump)]));
+    }
     v.push(("Categorical".to_string(), vec![Arg::FL(vec![1.0])]));
     v.push(("Categorical".to_string(), vec![Arg::FL(vec![0.0, 2.0])]));
     v.push(("Empirical".to_string(), vec![Arg::FL(vec![1.5])]));
